@@ -1,6 +1,7 @@
-(* C20 — theorems (statements in full; proofs in ProofsA.v / ProofsB.v). *)
+(* C20 — theorems (statements in full; proofs in ProofsA..D). The model follows /repo after the
+   nine C20 fix: commits (025b717 6c29d69 941ab7d a355167 e099dce 1b429d0 0a72c3c c72865a 6e820e7). *)
 From Coq Require Import List NArith ZArith Bool.
-From LTV.C20 Require Import ParamsGen Model ProofsA ProofsB.
+From LTV.C20 Require Import ParamsGen Model ProofsA ProofsB ProofsC ProofsD.
 Import ListNotations.
 Local Open Scope N_scope.
 
@@ -8,34 +9,11 @@ Theorem params_ok_now : params_ok = true.
 Proof. exact ProofsA.params_ok_now. Qed.
 Print Assumptions params_ok_now.
 
-(* metadata_slices is FALSE of the code as it is (src/protocol/extensions.cc send_metadata_piece:
-   last length = size % 16384): witness 16384 bytes, piece 0. *)
-Theorem metadata_slices_refuted : exists (m : list N) (p : N),
-  p < piece_end (size_of m) /\ send_metadata_piece false m p <> spec_reply m p.
-Proof. exact ProofsA.metadata_slices_refuted. Qed.
-Print Assumptions metadata_slices_refuted.
-
-(* the defect is exactly the multiples of 16 KiB: the last piece of every such info dictionary is
-   answered as data with an empty payload ... *)
-Theorem metadata_last_piece_empty_on_multiples : forall m : list N,
-  0 < size_of m -> size_of m mod piece_size = 0 ->
-  send_metadata_piece false m (piece_end (size_of m) - 1) = MData (piece_end (size_of m) - 1) (size_of m) [].
-Proof. exact ProofsA.metadata_last_piece_empty_on_multiples. Qed.
-Print Assumptions metadata_last_piece_empty_on_multiples.
-
-(* ... and every other size is served exactly as specified, for every piece index *)
-Theorem metadata_slices_code_nonmultiple : forall (m : list N) (p : N),
-  size_of m mod piece_size <> 0 -> send_metadata_piece false m p = spec_reply m p.
-Proof. exact ProofsA.metadata_slices_code_nonmultiple. Qed.
-Print Assumptions metadata_slices_code_nonmultiple.
-
-(* metadata_slices for the repaired last-length computation (size - (pieceEnd-1)*16384): for EVERY
-   info encoding m and EVERY piece index p: p < ceil(|m|/16384) => data, total_size |m|, payload
-   m[16384p, min(|m|, 16384(p+1))); otherwise reject *)
-Theorem metadata_slices_repaired : forall (m : list N) (p : N),
-  send_metadata_piece_repaired false m p = spec_reply m p.
-Proof. exact ProofsA.metadata_slices_repaired. Qed.
-Print Assumptions metadata_slices_repaired.
+(* metadata_slices: for EVERY info encoding m and EVERY piece index p: p < ceil(|m|/16384) => data,
+   total_size |m|, payload m[16384p, min(|m|, 16384(p+1))); otherwise reject *)
+Theorem metadata_slices : forall (m : list N) (p : N), send_metadata_piece false m p = spec_reply m p.
+Proof. exact ProofsA.metadata_slices. Qed.
+Print Assumptions metadata_slices.
 
 Theorem metadata_concat : forall m : list N, concat_upto m (N.to_nat (piece_end (size_of m))) = m.
 Proof. exact ProofsA.metadata_concat. Qed.
@@ -50,76 +28,101 @@ Theorem out_of_range_rejects : forall ll (m : list N) p,
 Proof. exact ProofsA.out_of_range_rejects. Qed.
 Print Assumptions out_of_range_rejects.
 
-(* every ut_metadata reply of a run is send_metadata_piece of the torrent's own info bytes and goes
-   to the requesting peer *)
-Theorem meta_reply_is_slice_of_info : forall d i ms d' outs j id r,
-  step d (Recv i ms) = SOk d' outs -> In (OMeta j id r) outs ->
-  j = i /\ exists p, r = send_metadata_piece false (d_meta d) p.
-Proof. exact ProofsB.meta_reply_is_slice_of_info. Qed.
-Print Assumptions meta_reply_is_slice_of_info.
+(* the reject message is well-formed bencode for every 64-bit piece index (e099dce) *)
+Theorem reject_never_truncated : forall piece, piece < 2 ^ 64 -> reject_build piece = BuildOk.
+Proof. exact ProofsA.reject_never_truncated. Qed.
+Print Assumptions reject_never_truncated.
 
-(* id map = the most recent handshake, truncated to 8 bits; absent keys keep the entry *)
-Theorem parse_handshake_meta_id : forall ms c sp h c' sp',
-  parse_handshake ms c sp h = inl (c', sp') ->
-  c_id_meta c' = match hs_meta h with Some z => u8 z | None => c_id_meta c end /\
-  c_rs_meta c' = match hs_meta h with Some _ => true | None => c_rs_meta c end.
-Proof. exact ProofsB.parse_handshake_meta_id. Qed.
-Print Assumptions parse_handshake_meta_id.
+(* regression (the computation before 025b717): refuted, and exactly on the multiples of 16 KiB *)
+Theorem metadata_slices_old_refuted : exists (m : list N) (p : N),
+  p < piece_end (size_of m) /\ send_metadata_piece_old false m p <> spec_reply m p.
+Proof. exact ProofsA.metadata_slices_old_refuted. Qed.
+Print Assumptions metadata_slices_old_refuted.
 
-Theorem parse_handshake_pex_id : forall ms c sp h c' sp',
-  parse_handshake ms c sp h = inl (c', sp') ->
-  c_id_pex c' = match hs_pex h with Some z => u8 z | None => c_id_pex c end.
-Proof. exact ProofsB.parse_handshake_pex_id. Qed.
-Print Assumptions parse_handshake_pex_id.
+Theorem metadata_last_piece_empty_on_multiples_old : forall m : list N,
+  0 < size_of m -> size_of m mod piece_size = 0 ->
+  send_metadata_piece_old false m (piece_end (size_of m) - 1) = MData (piece_end (size_of m) - 1) (size_of m) [].
+Proof. exact ProofsA.metadata_last_piece_empty_on_multiples_old. Qed.
+Print Assumptions metadata_last_piece_empty_on_multiples_old.
 
-(* ut_pex messages: never with id 0, only on the tick (all states, all ops) *)
-Theorem pex_id_nonzero : forall d o d' outs i id a r,
-  step d o = SOk d' outs -> In (OPex i id a r) outs -> id <> 0 /\ o = Tick.
-Proof. exact ProofsB.pex_id_nonzero. Qed.
-Print Assumptions pex_id_nonzero.
+(* reads_resume: for every torrent, every op list (connects, message batches, ticks, closes,
+   blocked/unblocked writes) and every connection of the reached state: if a complete message is
+   not processed (it waits in m_read, or is buffered behind such a message, or the connection is
+   out of the read set, or the read state is READ_EXTENSION) then a reply is pending or in flight
+   AND the connection is in the write set — i.e. the message is processed as soon as the peer
+   accepts the bytes it is owed. *)
+Theorem reads_resume : forall priv m minp ops c,
+  In c (d_conns (final_state current_fixes (start current_fixes priv m minp) ops)) ->
+  unprocessed c = true -> progress_scheduled c = true.
+Proof. exact ProofsC.reads_resume. Qed.
+Print Assumptions reads_resume.
 
-(* ext_ids_advertised is FALSE of the code as it is for ut_metadata replies *)
-Theorem ext_ids_advertised_refuted :
-  existsb is_meta_id0 (outs_of (start false small_meta 40) [Connect 0; Recv 0 [MExt 2 0 0]]) = true /\
-  existsb is_meta_id0 (outs_of (start false small_meta 40)
-     [Connect 0; Recv 0 [MHandshake (hs_of (Some 0%Z) (Some 0%Z) None)]; Recv 0 [MExt 2 0 0]]) = true.
-Proof. exact ProofsB.ext_ids_advertised_refuted. Qed.
-Print Assumptions ext_ids_advertised_refuted.
+(* the full per-connection invariant behind it, for any variant of the model that has the three
+   repairs of the event loop *)
+Theorem reads_resume_invariant : forall fx ops d, repaired fx -> all_ok d -> all_ok (final_state fx d ops).
+Proof. exact ProofsC.final_state_ok. Qed.
+Print Assumptions reads_resume_invariant.
 
-Theorem ext_ids_truncated_witness :
-  outs_of (start false small_meta 40)
-     [Connect 0; Recv 0 [MHandshake (hs_of None (Some 257%Z) None)]; Recv 0 [MExt 2 0 0]]
-  = [OHs 0 true 5; OMeta 0 1 (MData 0 5 small_meta)].
-Proof. exact ProofsB.ext_ids_truncated_witness. Qed.
-Print Assumptions ext_ids_truncated_witness.
+(* ext_ids_advertised: in every reachable state, whatever write_prepare_extension frames for a
+   connection carries the id currently in the map for its type, and that id is not 0; the map is
+   the clamp (outside 0..255 -> 0) of the most recent advertisement *)
+Theorem ext_ids_advertised : forall priv m minp ops c ini del c1 e,
+  In c (d_conns (final_state current_fixes (start current_fixes priv m minp) ops)) ->
+  fill current_fixes ini del c = (c1, Some e) -> ext_id_ok c e.
+Proof. exact ProofsD.ext_ids_advertised. Qed.
+Print Assumptions ext_ids_advertised.
 
-(* pex_exact is FALSE of the code as it is: stale m_ut_pex_initial *)
-Theorem pex_exact_refuted :
-  existsb (stale_added (final_state (start false small_meta 40) pex_witness))
-          (outs_of (start false small_meta 40) pex_witness) = true.
-Proof. exact ProofsB.pex_exact_refuted. Qed.
-Print Assumptions pex_exact_refuted.
+Theorem parse_handshake_meta : forall fx ms x pend sp h x' pend' sp' bad,
+  parse_handshake fx ms x pend sp h = (x', pend', sp', bad) ->
+  x_id_meta x' = match hs_meta h with Some z => clamp_id z | None => x_id_meta x end /\
+  pend' = match hs_meta h with
+          | Some z => if negb (clamp_id z =? x_id_meta x) && (clamp_id z =? 0) then None else pend
+          | None => pend
+          end.
+Proof. exact ProofsB.parse_handshake_meta. Qed.
+Print Assumptions parse_handshake_meta.
 
-(* reads_resume is FALSE of the code as it is: read_done() discards the message it could not process *)
-Theorem reads_resume_refuted :
-  deaf (final_state (start true small_meta 40)
-          [Connect 0; Recv 0 [MHandshake (hs_of None (Some 3%Z) None)]; Recv 0 [MExt 2 0 0; MExt 2 0 0]]) = true /\
-  outs_of (start true small_meta 40)
-          [Connect 0; Recv 0 [MHandshake (hs_of None (Some 3%Z) None)]; Recv 0 [MExt 2 0 0; MExt 2 0 0];
-           Recv 0 [MExt 2 0 0]; Tick; Tick; Tick]
-  = [OHs 0 false 5; OMeta 0 3 (MData 0 5 [100; 49; 58; 120; 101]); OClosed 0].
-Proof. exact ProofsB.reads_resume_refuted. Qed.
-Print Assumptions reads_resume_refuted.
+Theorem parse_handshake_pex : forall fx ms x pend sp h x' pend' sp' bad,
+  parse_handshake fx ms x pend sp h = (x', pend', sp', bad) ->
+  x_id_pex x' = match hs_pex h with Some z => clamp_id z | None => x_id_pex x end.
+Proof. exact ProofsD.parse_handshake_pex. Qed.
+Print Assumptions parse_handshake_pex.
 
-(* what does hold: a connection leaves the read set only when a request met a pending reply, and a
-   peer that sends one request per segment is never suspended *)
-Theorem run_batch_in_read : forall meta ms c sp pend c' sp' pend',
-  run_batch meta c sp pend ms = BDone c' sp' pend' -> c_in_read c = true ->
-  c_in_read c' = true \/ (exists r, pend' = Some r).
-Proof. exact ProofsB.run_batch_in_read. Qed.
-Print Assumptions run_batch_in_read.
+(* pex_exact, PARTIAL: proved for the buffers whenever do_peer_exchange regenerates them (<= 200
+   listed peers): every 'added' entry is a connected peer with that non-zero listen port. Missing:
+   the case "nothing added, nothing removed" keeps the old initial buffer, which needs
+   set_diff a b = [] /\ set_diff b a = [] -> a = b on strictly sorted lists; pex_private_silent as
+   an invariant over all ops (k_do never set for a private torrent) is not proved either; both are
+   covered by the oracle on every run (classes pex-added-not-connected, pex-private). *)
+Theorem pex_exact_when_regenerated_partial : forall d d1 a r,
+  do_peer_exchange d = DpeOk d1 ->
+  N.of_nat (length (sort_entries (current_entries (d_conns d)))) <= Params.c20_max_pex_list ->
+  (d_initial d1 <> d_initial d \/ d_delta d1 <> None) ->
+  (d_initial d1 = Some (a, r) \/ d_delta d1 = Some (a, r)) ->
+  (d_initial d1 = Some (a, r) -> d_initial d1 <> d_initial d) ->
+  forall e, In e a -> exists c, In c (d_conns d) /\ c_peer c = fst e /\ x_listen (c_x c) = snd e /\ snd e <> 0.
+Proof. exact ProofsD.pex_exact_when_regenerated_partial. Qed.
+Print Assumptions pex_exact_when_regenerated_partial.
 
-Theorem single_request_keeps_reading : forall meta c sp e t p c' sp' pend',
-  run_batch meta c sp None [MExt e t p] = BDone c' sp' pend' -> c_in_read c = true -> c_in_read c' = true.
-Proof. exact ProofsB.single_request_keeps_reading. Qed.
-Print Assumptions single_request_keeps_reading.
+(* regression witnesses: the model without the four later repairs reproduces the three defects *)
+Theorem up_extension_internal_error_before_1b429d0 :
+  run_crashes no_fixes (start no_fixes true small_meta 40)
+    [Connect 0; Recv 0 [hs3]; SetBlocked 0 true; Recv 0 [req]; Recv 0 [req]; Recv 0 [req]; SetBlocked 0 false] = true /\
+  run_crashes current_fixes (start current_fixes true small_meta 40)
+    [Connect 0; Recv 0 [hs3]; SetBlocked 0 true; Recv 0 [req]; Recv 0 [req]; Recv 0 [req]; SetBlocked 0 false] = false.
+Proof. exact ProofsD.up_extension_internal_error_before_1b429d0. Qed.
+Print Assumptions up_extension_internal_error_before_1b429d0.
+
+Theorem buffered_request_before_c72865a :
+  n_meta (outs_of no_fixes (start no_fixes true small_meta 40) [Connect 0; Recv 0 [hs3]; Recv 0 [req; req; req]]) = 2%nat /\
+  n_meta (outs_of current_fixes (start current_fixes true small_meta 40) [Connect 0; Recv 0 [hs3]; Recv 0 [req; req; req]]) = 3%nat.
+Proof. exact ProofsD.buffered_request_before_c72865a. Qed.
+Print Assumptions buffered_request_before_c72865a.
+
+Theorem pending_not_scheduled_before_0a72c3c :
+  stuck_pending (final_state no_fixes (start no_fixes false small_meta 40)
+    [Connect 0; Recv 0 [hs3x0]; SetBlocked 0 true; Recv 0 [req]; Recv 0 [req]; Tick; SetBlocked 0 false]) = true /\
+  stuck_pending (final_state current_fixes (start current_fixes false small_meta 40)
+    [Connect 0; Recv 0 [hs3x0]; SetBlocked 0 true; Recv 0 [req]; Recv 0 [req]; Tick; SetBlocked 0 false]) = false.
+Proof. exact ProofsD.pending_not_scheduled_before_0a72c3c. Qed.
+Print Assumptions pending_not_scheduled_before_0a72c3c.
